@@ -104,7 +104,7 @@ impl Case {
     }
 }
 
-fn case_strategy() -> BoxedStrategy<Case> {
+pub fn case_strategy() -> BoxedStrategy<Case> {
     let kind = prop_oneof![Just(Kind::Chunk), Just(Kind::Pad), Just(Kind::Tx), Just(Kind::Reg)];
     let s = prop_oneof![(0u8..3).prop_map(SFault::CorruptSig), (0u8..3).prop_map(SFault::ClaimedOther), (0u8..3).prop_map(SFault::OtherPubKey), (0u8..3).prop_map(SFault::UndecodablePayee)];
     let e = prop_oneof![(0u8..3, 60u16..4000).prop_map(|(j, d)| EFault::Old(j, d)), (0u8..3, 60u16..4000).prop_map(|(j, d)| EFault::Future(j, d))];
@@ -368,7 +368,7 @@ pub fn build_proof(case: &Case, cl: &mut Cluster, pl: &Payload) -> (ProofOfPayme
     (pr, hashes, k_constructed)
 }
 
-fn check(case: &Case, ctx: &mut Ctx) {
+pub fn check(case: &Case, ctx: &mut Ctx) {
     let mut cl = Cluster::new(&[1], None);
     let pl = payload(case.kind, case.seed);
     // prior content
@@ -515,7 +515,7 @@ pub struct SeqCase {
     pub steps: Vec<SeqStep>,
 }
 
-fn seq_strategy() -> BoxedStrategy<SeqCase> {
+pub fn seq_strategy() -> BoxedStrategy<SeqCase> {
     let rpc = prop_oneof![8 => Just(Rpc::Ok), 1 => Just(Rpc::Http503), 1 => Just(Rpc::RevertError)];
     let step = (
         prop_oneof![2 => Just(true), 1 => Just(false)],
@@ -532,7 +532,7 @@ fn seq_strategy() -> BoxedStrategy<SeqCase> {
         .boxed()
 }
 
-fn check_sequence(case: &SeqCase, ctx: &mut Ctx) {
+pub fn check_sequence(case: &SeqCase, ctx: &mut Ctx) {
     let mut cl = Cluster::new(&[1], None);
     let pl = payload(case.kind, case.seed);
     let me = cl.nodes[0].peer;
@@ -671,5 +671,7 @@ pub fn run(cfg: RunCfg) {
         "2..4 paid uploads of one address to one node: verdicts of the contract per quote and per step, reachability, this node's first quote re-sent in later proofs, payload validity (scratchpads), record pruned between steps; every upload of new data is judged on its own proof. non-trivial: a new-data upload after this node's quote was confirmed once, with that quote re-sent",
         seq_strategy, check_sequence
     );
+    vh_core::fuzz_section!(rep, "payment", case_strategy, check, "sec_node", "node", 8_000, 300, 12);
+    vh_core::fuzz_section!(rep, "sequence", seq_strategy, check_sequence, "sec_node", "node", 4_000, 300, 12);
     rep.finish();
 }
